@@ -316,14 +316,39 @@ func raceProgram(p program, idx int, cfgs []config, o raceOpts) bool {
 	base := make([]string, n)
 	// sequential baseline through the Code, then through the Query (must agree; a
 	// program that is not deterministic when run alone cannot be judged here)
-	tc := time.Now()
+	// the baseline of input i is a run through a FRESH Code (nothing an earlier run left in the
+	// Code — the regexp cache, a constant written to — can reach it) …
 	for i, in := range p.Inputs {
-		s, budget := runner{code: code}.runOnce(common.DeepCopy(in))
+		fresh, err := gojq.Compile(q)
+		if err != nil {
+			res.Skipped["compile-error"]++
+			return false
+		}
+		s, budget := runner{code: fresh}.runOnce(common.DeepCopy(in))
 		if budget {
 			res.Skipped["baseline-hits-budget"]++
 			return false
 		}
 		base[i] = s
+	}
+	// … and the runs through ONE Code, one after the other, must give the same: a difference
+	// that a second fresh Code does not show is a run that depends on the runs before it
+	tc := time.Now()
+	for i, in := range p.Inputs {
+		s, _ := runner{code: code}.runOnce(common.DeepCopy(in))
+		if s != base[i] {
+			fresh, _ := gojq.Compile(q)
+			if s2, _ := (runner{code: fresh}).runOnce(common.DeepCopy(in)); s2 != base[i] {
+				res.Skipped["sequentially-nondeterministic"]++
+				fmt.Fprintf(os.Stderr, "NONDET %s\n  fresh : %s\n  fresh2: %s\n", p.Src, clip(base[i], 300), clip(s2, 300))
+				return false
+			}
+			if len(res.Diffs) < 40 {
+				res.Diffs = append(res.Diffs, diffRec{Program: p.Src, Kind: p.Kind, Input: clip(jsonText(p.Inputs[i]), 2000), Inputs: clip(inputsTxt, 20000),
+					G: 0, R: i, Observed: clip(s, 2000), Expected: clip(base[i], 2000)})
+			}
+			return true
+		}
 	}
 	tCode := time.Since(tc) / time.Duration(n)
 	tq := time.Now()
